@@ -11,7 +11,8 @@ RULE = ('Random broker-level sequences with a harness-owned quote book in which 
         'price bit-equal to ask (buy) / bid (sell), commission == rates x |round(price x qty)| (1e-12; both '
         'neighbours on an exact tie), never negative; per update: cash delta == -(sum price x qty + commission). '
         'Non-trivial: a case with >=1 buy and >=1 sell filled under a non-zero percentage model; distinct = distinct '
-        '(request kind, side) sequence.')
+        '(request kind, side) sequence.'
+        ' Also 6 x as many symmetric buy/sell pairs (same price, same size, one update; half with a consideration of exactly n+0.5) and updates that go back in time but are accepted (the fill must carry that update\'s time and quote).')
 ASSUMPTIONS = [
     'the quote book is the harness\'s own data handler (the statement quantifies over bid/ask pairs with bid != ask, '
     'which the CSV data source cannot produce)',
